@@ -10,33 +10,33 @@ Definition one_block : list block := [(0, TRet)].
 (* fn identity<T>(x: T) -> T { return x }            name 0
    fn caller() { let v: int = 42; let s = "hi"; identity(v); identity(s) }     name 1 *)
 Definition f_identity : mfn :=
-  mkmfn (NPlain 0) [0] [(0, TParam 0)] (TParam 0) [(0, TParam 0)] [] one_block.
+  mkmfn (NPlain 0) [0] [(0, TParam 0)] (TParam 0) [(0, TParam 0)] [] one_block false.
 Definition w_two_types : mprog :=
   mkmp [f_identity;
         mkmfn (NPlain 1) [] [] T_I64 [(0, T_I64); (1, T_STR); (2, T_I64); (3, T_I64)]
-              [MCall (NPlain 0) [ALocal 0]; MCall (NPlain 0) [ALocal 1]] one_block]
+              [MCall (NPlain 0) [ALocal 0]; MCall (NPlain 0) [ALocal 1]] one_block false]
        [] [].
 
 (* struct Point {x, y} (name 5);  fn mk<T>(x: T) -> T { let p = Point{..}; return x } (name 2);
    fn caller() { mk(3) } *)
 Definition w_structinit : mprog :=
   mkmp [mkmfn (NPlain 2) [0] [(0, TParam 0)] (TParam 0) [(0, TParam 0); (1, TStruct 5)]
-              [MInit (NPlain 5)] one_block;
-        mkmfn (NPlain 1) [] [] T_I64 [(0, T_I64)] [MCall (NPlain 2) [AConst T_I64]] one_block]
+              [MInit (NPlain 5)] one_block false;
+        mkmfn (NPlain 1) [] [] T_I64 [(0, T_I64)] [MCall (NPlain 2) [AConst T_I64]] one_block false]
        [mkms (NPlain 5) [] [T_I64; T_I64]] [].
 
 (* struct Box<T> { v: T } (name 6);  fn caller() { let b: Box = ... }   -- KF-C17-5, still open *)
 Definition w_generic_struct : mprog :=
-  mkmp [mkmfn (NPlain 1) [] [] T_I64 [(0, TStruct 6)] [] one_block]
+  mkmp [mkmfn (NPlain 1) [] [] T_I64 [(0, TStruct 6)] [] one_block false]
        [mkms (NPlain 6) [0] [TParam 0]] [].
 
 (* fn wrap<T>(x: T) -> T { return identity(x) } (name 3);  fn caller() { wrap(3) } *)
 Definition f_wrap : mfn :=
   mkmfn (NPlain 3) [0] [(0, TParam 0)] (TParam 0) [(0, TParam 0); (1, TParam 0)]
-        [MCall (NPlain 0) [ALocal 0]] one_block.
+        [MCall (NPlain 0) [ALocal 0]] one_block false.
 Definition w_generic_calls_generic : mprog :=
   mkmp [f_identity; f_wrap;
-        mkmfn (NPlain 1) [] [] T_I64 [(0, T_I64)] [MCall (NPlain 3) [AConst T_I64]] one_block]
+        mkmfn (NPlain 1) [] [] T_I64 [(0, T_I64)] [MCall (NPlain 3) [AConst T_I64]] one_block false]
        [] [].
 
 (* the former counterexamples (KF-C17-3, -4, -6): all clauses hold now, and each call site
@@ -69,10 +69,10 @@ Proof. vm_compute. split; reflexivity. Qed.
 Definition g_id : mfn := f_identity.                                             (* name 0 *)
 Definition g_pick : mfn :=                                                        (* name 2 *)
   mkmfn (NPlain 2) [0; 1] [(0, TParam 0); (1, TParam 1)] (TParam 0) [(0, TParam 0); (1, TParam 1)]
-        [MInit (NPlain 5)] one_block.
+        [MInit (NPlain 5)] one_block false.
 Definition g_first : mfn :=                                                       (* name 4 *)
   mkmfn (NPlain 4) [0] [(0, TSlice (TParam 0))] (TParam 0) [(0, TSlice (TParam 0)); (1, TParam 0)]
-        [MCast (TParam 0) T_I64; MCall (NPlain 3) [ALocal 1]] one_block.
+        [MCast (TParam 0) T_I64; MCall (NPlain 3) [ALocal 1]] one_block false.
 
 Definition caller_locals : list (N * ty) :=
   [(0, T_I64); (1, T_STR); (2, T_BOOL); (3, T_F64); (4, TSlice T_I64); (5, TSlice T_STR)].
@@ -87,7 +87,7 @@ Definition bodies : list (list mstmt) :=
   ++ flat_map (fun a => map (fun b => [a; b]) calls) calls
   ++ flat_map (fun a => flat_map (fun b => map (fun c => [a; b; c]) calls) calls) calls.
 Definition prog_with (body : list mstmt) : mprog :=
-  mkmp [g_id; g_pick; f_wrap; g_first; mkmfn (NPlain 1) [] [] T_I64 caller_locals body one_block]
+  mkmp [g_id; g_pick; f_wrap; g_first; mkmfn (NPlain 1) [] [] T_I64 caller_locals body one_block false]
        [mkms (NPlain 5) [] [T_I64; T_I64]] [].
 
 Definition mono_sweep_body (b : list mstmt) : bool :=
